@@ -539,15 +539,17 @@ def gcd (t : IntTy) (π : Policy) (_to0 x y : Int) (dir : Dir) : Int × Result :
   let g := gcdNoAbs t π x y
   abs t π g g dir
 
-/-- `lcm_gcd_exact` (all policies equal, as in `Checked_Number<T, P>` arithmetic) -/
+/-- `lcm_gcd_exact` (all policies equal, as in `Checked_Number<T, P>` arithmetic).  When `|x|` (or `|y|`)
+is not a value of the type the lcm is not one either: `to` receives the outcome of that `abs`
+(/repo 5d13b40; before, the code of the temporary's `abs` was returned and nothing stored) -/
 def lcm (t : IntTy) (π : Policy) (to0 x y : Int) (dir : Dir) : Int × Result :=
   if x == 0 || y == 0 then (0, V_EQ)
   else
     let (ax, r1) := abs t π 0 x dir
-    if r1 != V_EQ then (to0, r1)
+    if r1 != V_EQ then abs t π to0 x dir
     else
       let (ay, r2) := abs t π 0 y dir
-      if r2 != V_EQ then (to0, r2)
+      if r2 != V_EQ then abs t π to0 y dir
       else
         let ax := t.wrap ax
         let ay := t.wrap ay
